@@ -4,6 +4,7 @@ import json, os, random, time, shutil
 import vcommon as V
 import gen_seq as G
 
+READY = True
 PROPS = {
  'C01': dict(level='model_checking', design='DESIGN.md 6 C01',
    text='Bucket.tla (write/read/incr/flush/rotation at critical-section grain, reference map by the documented version arithmetic) is model-checked exhaustively for small constants (all positions of flush and rotation, check_vhash on/off); seeded random and fixed histories are executed on the real HStore built from the working tree and every logged reply is validated by TLC against the reference map (level-1 trace validation).',
